@@ -47,8 +47,17 @@ impl FlagConstructor for TestFlag2 {
     }
 }
 
+/// a flag switched off (by configuration, say): forcing it adds nothing and must take nothing away
+struct TestFlagOff;
+impl FlagConstructor for TestFlagOff {
+    fn construct() -> MetricFlags<'static> {
+        MetricFlags::empty()
+    }
+}
+
 #[derive(Clone, Copy, Debug, PartialEq)]
 enum Flag {
+    Off,
     T1,
     T2,
     High,
@@ -57,6 +66,7 @@ enum Flag {
 impl Flag {
     fn debug(self) -> String {
         format!("{:?}", match self {
+            Flag::Off => TestFlagOff::construct(),
             Flag::T1 => TestFlag1::construct(),
             Flag::T2 => TestFlag2::construct(),
             Flag::High => HighStorageResolutionCtor::construct(),
@@ -67,6 +77,9 @@ impl Flag {
 /// reference merge: what `existing.try_merge(forced)` must give, as the Debug rendering
 fn merged_flag(existing: &Option<String>, forced: Flag) -> Option<String> {
     let all = [Flag::T1, Flag::T2, Flag::High, Flag::NoMetric];
+    if forced == Flag::Off {
+        return existing.clone();
+    }
     match existing {
         None => Some(forced.debug()),
         Some(e) => {
@@ -113,6 +126,7 @@ fn apply(layer: &Layer, e: BoxEntry) -> BoxEntry {
             WithGlobalDimensions::<_, 2>::new_with_global_dimensions(e, cow_dims(dims), deny.iter().map(|d| Cow::Owned(d.clone())).collect::<HashSet<_>>()).boxed()
         }
         Layer::EntryDims { dims } => WithDimensions::<_, 1>::new_with_dimensions(e, cow_dims(dims)).boxed(),
+        Layer::Force(Flag::Off) => ForceFlag::<_, TestFlagOff>::from(e).boxed(),
         Layer::Force(Flag::T1) => ForceFlag::<_, TestFlag1>::from(e).boxed(),
         Layer::Force(Flag::T2) => ForceFlag::<_, TestFlag2>::from(e).boxed(),
         Layer::Force(Flag::High) => ForceFlag::<_, HighStorageResolutionCtor>::from(e).boxed(),
@@ -201,6 +215,7 @@ macro_rules! wrapper_level {
                 match self {
                     $name::Plain(p) => p.write(writer),
                     $name::Dims(inner, dims) => WithDimensions::<&$inner, 2>::new_with_dimensions(&**inner, cow_dims(dims)).write(writer),
+                    $name::Flag(inner, Flag::Off) => ForceFlag::<&$inner, TestFlagOff>::from(&**inner).write(writer),
                     $name::Flag(inner, Flag::T1) => ForceFlag::<&$inner, TestFlag1>::from(&**inner).write(writer),
                     $name::Flag(inner, Flag::T2) => ForceFlag::<&$inner, TestFlag2>::from(&**inner).write(writer),
                     $name::Flag(inner, Flag::High) => ForceFlag::<&$inner, HighStorageResolutionCtor>::from(&**inner).write(writer),
@@ -238,7 +253,7 @@ macro_rules! wrapper_level {
                 let inner = <$inner as Wrappable>::generate(rng, emf_flags);
                 match rng.below(9) {
                     0 => $name::Dims(Box::new(inner), (0..1 + rng.below(2)).map(|i| (format!("w{i}"), gen_text(rng, false))).collect()),
-                    1 => $name::Flag(Box::new(inner), if emf_flags { *rng.pick(&[Flag::High, Flag::NoMetric]) } else { *rng.pick(&[Flag::T1, Flag::T2]) }),
+                    1 => $name::Flag(Box::new(inner), if emf_flags { *rng.pick(&[Flag::High, Flag::NoMetric, Flag::Off]) } else { *rng.pick(&[Flag::T1, Flag::T2, Flag::Off]) }),
                     2 => $name::Opt(if rng.below(4) == 0 { None } else { Some(Box::new(inner)) }),
                     3 => $name::Boxed(Box::new(inner)),
                     4 => $name::Arced(Arc::new(inner)),
@@ -344,7 +359,7 @@ fn composition_case(rng: &mut Rng, rep: &Report) -> bool {
                 deny: gen_deny(rng),
             },
             6 => Layer::EntryDims { dims: vec![("E".into(), gen_text(rng, false))] },
-            _ => Layer::Force(if emf_flags { *rng.pick(&[Flag::High, Flag::NoMetric]) } else { *rng.pick(&[Flag::T1, Flag::T2]) }),
+            _ => Layer::Force(if emf_flags { *rng.pick(&[Flag::High, Flag::NoMetric, Flag::Off]) } else { *rng.pick(&[Flag::T1, Flag::T2, Flag::Off]) }),
         })
         .collect();
     let mut wrapped: BoxEntry = match rng.below(4) {
@@ -615,6 +630,59 @@ fn after_unwound_write_case(rng: &mut Rng, rep: &Report) -> bool {
     true
 }
 
+/// configuration objects that are zero-sized fields of one entry struct (so several of them share
+/// one address), one of them handed over twice: every config call must reach the writer, in order,
+/// through every wrapper
+#[derive(Debug)]
+struct MarkerA;
+impl metrique_writer_core::entry::EntryConfig for MarkerA {}
+#[derive(Debug)]
+struct MarkerB;
+impl metrique_writer_core::entry::EntryConfig for MarkerB {}
+struct ZstConfigs {
+    split: metrique_writer_core::config::AllowSplitEntries,
+    a: MarkerA,
+    b: MarkerB,
+    order: u64,
+}
+impl Entry for ZstConfigs {
+    fn write<'a>(&'a self, writer: &mut impl metrique_writer::EntryWriter<'a>) {
+        let cfgs: [&'a dyn metrique_writer_core::entry::EntryConfig; 3] = [&self.split, &self.a, &self.b];
+        // a permutation with one repeat, chosen by `order`
+        let mut o = self.order;
+        for _ in 0..4 {
+            writer.config(cfgs[(o % 3) as usize]);
+            o /= 3;
+        }
+        writer.value("After", &1u64);
+        writer.config(cfgs[(o % 3) as usize]);
+    }
+}
+
+fn zst_config_case(rng: &mut Rng, rep: &Report) -> bool {
+    rep.eval();
+    let order = rng.below(243);
+    let mk = || ZstConfigs { split: metrique_writer_core::config::AllowSplitEntries::new(), a: MarkerA, b: MarkerB, order };
+    let plain = record(&mk());
+    let n_cfg = plain.iter().filter(|o| matches!(o, Op::Config { .. })).count();
+    if n_cfg != 5 {
+        rep.inconclusive(&format!("the recording writer saw {n_cfg} of 5 config calls of the plain entry (harness error)"));
+        return false;
+    }
+    for (name, got) in [("boxed()", record(&mk().boxed())), ("BoxEntry::new(boxed())", record(&BoxEntry::new(mk().boxed()))), ("Some(boxed())", record(&Some(mk().boxed()))), ("Box<_>.boxed()", record(&Box::new(mk()).boxed()))] {
+        if got != plain {
+            rep.violation(
+                "wrapped-entry-log-differs",
+                json!({"what": "an entry whose configuration objects are zero-sized fields of one struct (same address), one handed over twice: the config calls reaching the writer through the wrapper differ from those of the plain entry",
+                       "wrapper": name, "config_order_code": order, "diff": diff(&got, &plain)}),
+            );
+            return false;
+        }
+    }
+    rep.count("zero_sized_config_cases", 1);
+    true
+}
+
 fn root_case(rep: &Report) -> bool {
     use metrique::{CloseValue, InflectableEntry, RootEntry};
     rep.eval();
@@ -660,6 +728,7 @@ fn main() {
                 while start.elapsed() < budget && rep.violation_count() == 0 {
                     let kinds = if rng.below(16) == 0 { 5 } else { 4 };
                     let ok = match rng.below(kinds) {
+                        4 if rng.bool() => zst_config_case(&mut rng, rep),
                         4 => after_unwound_write_case(&mut rng, rep),
                         0 => value_case(&mut rng, rep),
                         1 => stream_case(&mut rng, rep),
